@@ -156,7 +156,7 @@ func pluginMain() {
 	}
 	g := pgs.Init(opts...) // otherwise: os.Stdin / os.Stdout, as protoc would use it
 	for _, p := range in.Procs {
-		kp := kindProc{kinds: map[int]bool{}, suffix: p.Suffix.String(), fails: p.Fails}
+		kp := kindProc{kinds: map[int]bool{}, suffix: p.Suffix.String(), fails: p.Fails, repl: p.Replace}
 		for _, k := range p.Kinds {
 			kp.kinds[k] = true
 		}
@@ -383,6 +383,19 @@ func (c14Engine) Gen(g *Gen) {
 				kk := k
 				emit(c14In{Arts: run, FsIdx: &kk, FsOp: op})
 			}
+		}
+	}
+	// an append whose target was never generated, next to chunks that only look like the target:
+	// an injection into the same name (with a point, and with the empty point), an append to it
+	for _, ip := range []string{"pt", ""} {
+		inj := mk("inj", "x.go", "I")
+		inj.IP = toB(ip)
+		for _, tpl := range []bool{false, true} {
+			app := mk("app", "x.go", "+")
+			app.Tpl = tpl
+			emit(c14In{Arts: []artJ{inj, app}})
+			emit(c14In{Arts: []artJ{mk("file", "y.go", "Y"), inj, app, mk("custom", "after", "never")}})
+			emit(c14In{Arts: []artJ{inj, mk("file", "x.go", "X"), app}}) // control: the target exists
 		}
 	}
 	// random combinations (a soft error before the fault, several faults at once, ...)
